@@ -178,5 +178,31 @@ def run(ctx):
                             ctx.check(r.endswith("reference_location") and d.endswith("defined_location"), "PAIR", "C18:PAIR:%s:recorded-pair" % f.name, "the recorded pair is (use-site, definition-site) of this element",
                                       "the recorded locations are (%s, %s)" % (r, d), config, ctx.where(f, b))
             ctx.floor("PAIR.current", np_, 3, config)
+            # every insert into the recorder's map stores the pair as captured: the value is a Locations literal of the two
+            # captured locations, or a constructor that returns its two arguments unchanged on every path (a constructor that
+            # "normalises" — e.g. collapses the pair when some derived quantity is equal — loses the definition site)
+            nins = 0
+            for f in sorted(fx.fns.values(), key=lambda f: f.npath):
+                if not f.file.endswith("src/de.rs"):
+                    continue
+                for b, t in f.calls():
+                    if last_seg(fx.callee_decl(t)) != "insert" or len(t["args"]) < 3:
+                        continue
+                    if "Locations" not in f.local_ty((t["args"][2].get("mv") or t["args"][2].get("cp") or {"l": 0})["l"]):
+                        continue
+                    nins += 1
+                    ctx.saw(f)
+                    with f.deep():
+                        v = f.sym_operand(t["args"][2])
+                    okv = v[0] == "aggr" and str(v[1]).endswith("Locations")
+                    why = "a Locations literal"
+                    if not okv and v[0] == "call" and v[1] in fx.fns:
+                        h = fx.fns[v[1]]
+                        aggs = [(fl, ops) for hb, hi, adt, var, fl, ops, hs in aggregates(h) if adt == "location::Locations"]
+                        okv = bool(aggs) and all(render(ops[fl.index("reference_location")]) != render(ops[fl.index("defined_location")]) and ops[fl.index("reference_location")][0] in ("local", "arg") and ops[fl.index("defined_location")][0] in ("local", "arg") for fl, ops in aggs)
+                        why = "constructor %s" % v[1]
+                    ctx.check(okv, "PAIR", "C18:PAIR:recorded-as-captured:%s#%d" % (f.npath.split("::")[-1], nins), "the recorder stores the captured (use-site, definition-site) pair unchanged (%s)" % why,
+                              "%s stores the location pair through %s, which does not return its two arguments unchanged on every path: the definition site is lost for some inputs (e.g. reader input, which has no byte offsets)" % (f.npath, render(v)[:80]), config, ctx.where(f, b))
+            ctx.floor("PAIR.recorder-inserts", nins, 3, config)
         finally:
             C13.TRACKED[:] = [C13.SER]
